@@ -472,7 +472,7 @@ func (o *snapshotter) getCleanupDirectories(ctx context.Context, t storage.Trans
 				}
 			}
 			return nil
-		}); err != nil {
+		}); err != nil && !errdefs.IsNotFound(err) { // the bucket does not exist before the first snapshot
 			return nil, err
 		}
 	}
